@@ -59,8 +59,12 @@ def hj_case(draw, tier):
     if fn in ("hashjoin", "hashleftjoin", "hashrightjoin"):
         c["cache"] = draw(st.booleans())
     if fn != "hashantijoin" and draw(st.integers(0, 3)) == 0:
-        c["lprefix"] = "l_"
-        c["rprefix"] = "r_"
+        # either prefix alone, or both
+        which = draw(st.sampled_from(["both", "left", "right"]))
+        if which != "right":
+            c["lprefix"] = "l_"
+        if which != "left":
+            c["rprefix"] = "r_"
     # optionally the first pass hits a transient fault while the build side is being read
     c["fail_first"] = draw(st.one_of(st.none(), st.none(), st.integers(0, 3)))
     c["fail_kind"] = draw(st.sampled_from(BOOM_KINDS))
